@@ -96,6 +96,7 @@ type Enc struct {
 	decls    []string
 	declSeen map[string]bool
 	asserts  []string
+	axioms   []condAxiom
 	assertBlk []*ssa.BasicBlock // block that produced each assumption (nil = global fact)
 	globalMode int             // >0: assumptions being added are global facts
 	anc      map[*ssa.BasicBlock]map[*ssa.BasicBlock]bool
